@@ -239,7 +239,25 @@ def refs_discipline(P, R, rule):
                 if fld == MASK and op == '&=':
                     return (taken, 'p')
             return st
-        before, at_exit, sin, bout = f.forward((0, None), on_event, None)
+        def mask_test(l):
+            return isinstance(l, dict) and l.get('k') == 'bin' and l.get('op') == '&' and outer_field(l.get('l')) == MASK
+
+        def on_edge(st, e):
+            # the awaited bit found set already: the client holds its reference on the service from the earlier query
+            r = e.rel()
+            if r and mask_test(r[0]) and r[1] == '!=' and const_of(r[2]) == 0:
+                return (max(st[0], 1), st[1])
+            return st
+        before, at_exit, sin, bout = f.forward((0, None), on_event, on_edge)
+        # one reference per client and service: the reply that clears the bit gives back one, so a second one counted
+        # under a bit that is already set (the same service asked again before it answered) is never given back and the
+        # service, once retired, is kept for ever
+        for s in touches:
+            if outer_field(s.ev['lhs']) == 'refs' and s.ev.get('op') == '++':
+                n += 1
+                gs = f.guards(s.bid)
+                ok = any(mask_test(g[0]) and g[1] == '==' and const_of(g[2]) == 0 for g in gs)
+                R.ob(rule, ok, s, 'a reference on a service is counted only where the client\'s awaited bit for it is clear (one reference per bit: the reply that clears the bit gives back one)', key='ref-once')
         for s in touches:
             if outer_field(s.ev['lhs']) != MASK:
                 continue
